@@ -5,6 +5,7 @@ same-size-class condition for in-place replacement."""
 import re, struct
 import core, lib
 from core import call_matches, call_names, op_place, op_local, backward_slice
+from props import shared
 
 LEVEL = 'other'
 FLOOR = 14
@@ -96,25 +97,7 @@ def run(ctx):
     # RwLock flavour of LogQuery takes and releases the overlay read lock PER PART, so Log::end_record can publish a whole record
     # between two parts of one value: the parts of two different values are concatenated (only the head part carries a key check).
     # Readers of values that may be chained therefore get one locked view (LogOverlays behind a read guard) for the whole value.
-    SINGLE_PART = {'btree::btree::BTree::open': 'reads the 12-byte tree header entry, which is never chained'}
-    reach = F.may_reach('table::ValueTable::for_parts')
-    n = 0
-    for b in sorted(F.bodies.values(), key=lambda x: x.path):
-        if b.path.startswith('log::'):
-            continue
-        for bi, t in b.calls():
-            fa = t.get('fa') or ''
-            if 'RwLock<parking_lot::RawRwLock, log::LogOverlays>' not in fa or '::<' not in fa:
-                continue
-            callee = [x for x in call_names(t) if x in F.bodies]
-            if not callee or not (callee[0] in reach or callee[0] == 'table::ValueTable::for_parts'):
-                continue
-            n += 1
-            why = SINGLE_PART.get(callee[0])
-            ctx.ob('5a value-read-under-one-overlay-guard %s -> %s' % (lib.strip_closures(b.path), callee[0].split('::', 1)[-1]), 'K5-held-at', b.path,
-                   'a value that may be chained is read through ONE locked view of the log overlay, not through the RwLock flavour that locks per part' + (' [single-part: %s]' % why if why else ''),
-                   why is not None, 'reads parts under separate acquisitions of Log.overlays: a record published in between tears the value', b.loc(bi))
-    ctx.ob('5b value-read-sites', 'anchor', '-', 'the value read call sites that are handed the log overlay were found', n >= 1, 'found %d' % n)
+    shared.value_read_one_guard(ctx, '5')
     # 6. the parts of a chain are linked in no particular order: released parts go onto a LIFO free list, so a chain built from
     # recycled slots links backwards. Nothing on the read or release path may compare a next-part link with the slot it was read
     # from for ORDER (equality - a self loop - is a different matter): such a test rejects or truncates validly stored values.
